@@ -273,11 +273,12 @@ def gapLt (gap : F) (rhobeg : PyVal) : Except Exc Bool :=
   | none => .error .typeError
 
 /-- solver.py:1013-1046.  The `if h is not None: if … elif … elif …` block is three tests in a row
-    (the second is reached only when `prox_uh` is present, the third only when `lh` is present). -/
+    (the second is reached only when `prox_uh` is present, the third only when `lh` is present — its
+    guard `!e.lh.isNone` is therefore redundant in sequence and only makes the test total on its own). -/
 def argTests (e : Eff) : List Test := [
   (fun _ => .ok (e.hasH && !e.hasProx), .proxMissing),
   (fun _ => .ok (e.hasH && e.lh.isNone), .lhMissing),
-  (fun _ => if e.hasH then pyLe e.lh zeroF else .ok false, .lhNonpos),
+  (fun _ => if e.hasH && !e.lh.isNone then pyLe e.lh zeroF else .ok false, .lhNonpos),
   (fun _ => pyLt e.npt (.int ((e.n : Int) + 1)), .nptSmall),
   (fun _ => pyLe e.rhobeg zeroF, .rhobegNonpos),
   (fun _ => pyLe e.rhoend zeroF, .rhoendNonpos),
